@@ -23,7 +23,7 @@ FUNCTIONS = ['bycycle.group.utils.check_kwargs_shape', 'bycycle.group.utils.prog
              'bycycle.burst.utils.recompute_edge', 'bycycle.cyclepoints.extrema.find_extrema',
              'bycycle.objs.fit.Bycycle.fit', 'bycycle.objs.fit.Bycycle.plot', 'bycycle.objs.fit.BycycleGroup.fit']
 BOUNDS = {'quick': '(A) every extent >= 1 (symbolic); (B) extents <= 3; (C) one symbolic value per parameter, unbounded; (D) listed values',
-          'thorough': 'as quick (the spaces are covered symbolically / exhaustively already)'}
+          'thorough': 'as quick, and (B) on every array shape with extents 1..4 (square and non-square)'}
 OUTSIDE = 'option arrays with more than 3 dimensions; parameters not listed in the statement'
 STUBS = ['neurodsp stubs reject fs <= 0 with ValueError (real library behaviour: range check for fs < 0, filter design for fs == 0)',
          'compute_features / compute_cyclepoints cut where only the exception behaviour is the subject']
@@ -46,6 +46,12 @@ def configs(tier):
                 if sd == 2 and kw == '2d_wrong':
                     continue
                 out.append({'part': 'B', 'sigs_ndim': sd, 'axis': ax, 'kw': kw})
+                if tier != 'quick':
+                    shapes = [(a, 4) for a in (1, 3, 4)] if sd == 2 else [(a, b, 4) for a in (1, 2, 3, 4) for b in (1, 2, 3, 4) if (a, b) != (2, 3)]
+                    for shp in shapes:
+                        if kw == 'short_list' and (shp[1] if (sd == 3 and AXES[ax] == 1) else shp[0]) == 1:
+                            continue        # the shorter list would be empty: not a statement about option-list shapes
+                        out.append({'part': 'B', 'sigs_ndim': sd, 'axis': ax, 'kw': kw, 'shape': list(shp)})
     for probe in sorted(RANGE_PROBES):
         out.append({'part': 'C', 'probe': probe})
     for probe in sorted(ENUM_PROBES):
@@ -514,7 +520,7 @@ def run(ctx, cfg):
     if part == 'B':
         sd, axis, kwk = cfg['sigs_ndim'], AXES[cfg['axis']], cfg['kw']
         gf = ctx.mod('bycycle.group.features')
-        shape = (2, 4) if sd == 2 else (2, 3, 4)
+        shape = tuple(cfg['shape']) if 'shape' in cfg else ((2, 4) if sd == 2 else (2, 3, 4))
         arr = np.zeros(shape)
         one = lambda: {'center_extrema': 'peak'}      # noqa: E731
         want1 = shape[1] if (sd == 3 and axis == 1) else shape[0]
@@ -525,6 +531,8 @@ def run(ctx, cfg):
         elif kwk == 'ok_list':
             kw, kshape = [one() for _ in range(want1)], (want1,)
         elif kwk == 'short_list':
+            if want1 == 1:
+                return          # the shorter list would be empty: not a statement about option-list shapes
             kw, kshape = [one() for _ in range(want1 - 1)], (want1 - 1,)
         elif kwk == 'long_list':
             kw, kshape = [one() for _ in range(want1 + 1)], (want1 + 1,)
